@@ -315,6 +315,8 @@ def monitor_case(ops, obs, which):
                and (ro_mode or kvs.get("freelist") == cfg.get("freelist")) \
                and (kvs.get("cap") in ("same", "none") or (kvs.get("cap", "").isdigit() and int(kvs["cap"]) >= int(cfg.get("cap", "0")))):
                 V("C05", "own-file-refused", f"{ops[i].strip()} -> {r}: a file written and closed by this very history is refused with the identification it was created with", i)
+            if r == "ok" and kvs.get("cap", "").isdigit() and int(kvs["cap"]) < doff:
+                V("C16", "accepts-small-capacity", f"{ops[i].strip()} yields an arena although the capacity {kvs['cap']} cannot hold the prefix ({doff} bytes)", i)
             if r == "ok":
                 wrong_magic = kvs.get("magic") != cfg.get("magic")
                 wrong_fl = (not ro_mode) and kvs.get("freelist") != cfg.get("freelist")
